@@ -36,7 +36,7 @@ theorem fq_cleared_shape {s s' : St} {t : Nat} {e : Ev} {f0 : Frame} {rest : Lis
     rw [h, upd_same, norm_cons] at h2
     rw [frameAt_cons_lt _ (frameAt_lt h2), h2] at h1
     exact absurd (Option.some.inj h1).symm hne
-  | top f0' h hb hset hfq hS hW =>
+  | top f0' h hb hset hfq hO =>
     rw [h, upd_same, norm_cons] at h2
     rcases frameAt_top h1 h2 with heq | ⟨hk1, rfl, rfl⟩
     · exact absurd heq hne
